@@ -148,6 +148,11 @@ func (p Proxy) ServeHTTP(w http.ResponseWriter, r *http.Request) (int, error) {
 	outreq, cancel := createUpstreamRequest(w, r)
 	defer cancel()
 
+	// The director and the upstream header rules rewrite outreq's URL and
+	// headers in place. Keep the pristine versions so that every attempt
+	// starts from the original request, not from the previous attempt's result.
+	origURL, origHeader := *outreq.URL, outreq.Header
+
 	// If we have more than one upstream host defined and if retrying is enabled
 	// by setting try_duration to a non-zero value, casket will try to
 	// retry the request at a different host if the first one failed.
@@ -207,6 +212,10 @@ func (p Proxy) ServeHTTP(w http.ResponseWriter, r *http.Request) (int, error) {
 		}
 
 		proxy := host.ReverseProxy
+
+		attemptURL := origURL
+		outreq.URL = &attemptURL
+		outreq.Header = origHeader.Clone()
 
 		// a backend's name may contain more than just the host,
 		// so we parse it as a URL to try to isolate the host.
